@@ -31,6 +31,8 @@ Definition hstr (h : hdrs) (lk : pystr) : option pystr :=
 Definition htruthy (h : hdrs) (lk : pystr) : bool :=
   match hget h lk with Some (HStr []) => false | Some _ => true | None => false end.
 
+Definition is_meta (lk : pystr) : bool := match lk with c :: _ => c =? 95 | [] => false end.
+
 (* ------------------------------------------------------------------ strings *)
 Fixpoint contains (needle hay : pystr) : bool :=
   match hay with
@@ -232,8 +234,8 @@ Section WithIpVersion.
     | _ => (t1, None)
     end.
 
-  Definition ignored (lk : pystr) : bool :=
-    match lk with 95 :: _ => true | _ => false end || existsb (str_eqb lk) ignored_headers.
+  (* lower_header != "" and lower_header[0] == "_", or in IGNORED_HEADERS *)
+  Definition ignored (lk : pystr) : bool := is_meta lk || existsb (str_eqb lk) ignored_headers.
 
   (* same_headers_differ(current, new) *)
   Definition same_headers_differ (cur new : hdrs) : bool :=
